@@ -17,7 +17,10 @@ binary operator or a prefix operator, spellings non-empty, not starting with a b
 prefix-incomparable.  Tighter levels nest inside looser ones, right-associative chains nest to the right, prefix
 operators stack, parentheses override both, blanks are irrelevant.
 
-MISSING (oracle/correspondence only): LEFT-associative levels (the flat group `[a op b op c]`), postfix and ternary
+LEFT-associative binary levels (the flat group `[a op b op c]`) are added by `infix_roundtrip_left_partial`
+(PPProofs/Props/C16Left.lean), which contains this statement as an instance.
+
+MISSING there too (oracle/correspondence only): postfix and ternary
 levels, kept (non-Suppress) parentheses, level parse actions, overlapping spellings, ill-formed strings, packrat
 (the packrat leg is C02's `packrat_transparent` for the shared model; `_FB` is outside that theorem).
 -/
